@@ -190,6 +190,23 @@ def _parent_assign(fn, node):
     return None
 
 
+def _is_rhs_of_field_store(chain):
+    """chain = ancestors (outermost first) of the member read, the last one being the
+    & or | expression: is that expression the whole right-hand side of `field = ...`?"""
+    if len(chain) < 2:
+        return False
+    i = len(chain) - 2
+    while i >= 0 and chain[i].get("kind") in ("ImplicitCastExpr", "ParenExpr", "CStyleCastExpr"):
+        i -= 1
+    if i < 0:
+        return False
+    a = chain[i]
+    if a.get("kind") == "BinaryOperator" and a.get("opcode") == "=":
+        lhs = strip(kids(a)[0])
+        return lhs.get("kind") == "MemberExpr" and lhs.get("name") == FIELD
+    return False
+
+
 def _read_sites(chk, prog, M, mk, fx):
     """every read of the option field masks it with one option bit (by value); the
     bit read belongs to the dimension whose effect the function implements"""
@@ -223,6 +240,17 @@ def _read_sites(chk, prog, M, mk, fx):
                     chk.require(okv and op in ("|=", "&="), "READ", "READ/adjust/%s" % fn, loc_str(p),
                                 "the per-line copy of the options is adjusted only by setting/clearing option bits",
                                 expr_str(p))
+                continue
+            if pk == "BinaryOperator" and op in ("&", "|") and _is_rhs_of_field_store(chain):
+                other = kids(p)[1] if is_lhs else kids(p)[0]
+                v = ConstEval(prog).try_eval(other)
+                allm = 0
+                for mvv in maskvals:
+                    allm |= mvv
+                okv = v is not None and (((v & 0xff) & ~allm) == 0 if op == "|" else ((~v & 0xff) & ~allm) == 0)
+                nreads += 1
+                chk.require(okv, "READ", "READ/adjust/%s" % fn, loc_str(p),
+                            "the option field is adjusted only by setting/clearing option bits", expr_str(p))
                 continue
             if pk == "BinaryOperator" and op == "&":
                 other = kids(p)[1] if is_lhs else kids(p)[0]
